@@ -8,3 +8,4 @@ ASSUMPTIONS = ["the per-event densities amp(data) returned by the amplitude mode
 
 from vt.contracts import iface_nll  # noqa: F401,E402
 from vt.contracts import derivs  # noqa: F401,E402
+from vt.contracts import autodiff_helpers  # noqa: F401,E402
